@@ -152,7 +152,7 @@ def gen_cli(tier):
     pairs = [[0, 5], [5, 0], [0, 16], [6, 1], [0, 18]] + ([[a, b] for a in (4, 5, 6) for b in (0, 1, 16)] if tier != 'quick' else [])
     for toks in singles + pairs:
         for mode in ('file', 'pipe', 'run'):
-            for loc in ('C', 'C.utf8'):
+            for loc in ('C', 'C.utf8', 'strict_stdout'):
                 yield {'cli_tokens': toks, 'mode': mode, 'locale': loc}
 
 
@@ -166,7 +166,11 @@ def eval_cli(case):
         with open(path, 'wb') as f:
             f.write(data)
         env = {k: v for k, v in os.environ.items() if not k.startswith('LC_') and k not in ('LANG', 'PYTHONUTF8', 'PYTHONIOENCODING')}
-        env.update(LC_ALL=case['locale'], LANG=case['locale'], PYTHONDONTWRITEBYTECODE='1')
+        if case['locale'] == 'strict_stdout':
+            # what a UTF-8 terminal session gives: output that cannot be encoded raises instead of being escaped
+            env.update(LC_ALL='C.utf8', LANG='C.utf8', PYTHONIOENCODING='utf-8:strict', PYTHONDONTWRITEBYTECODE='1')
+        else:
+            env.update(LC_ALL=case['locale'], LANG=case['locale'], PYTHONDONTWRITEBYTECODE='1')
         main_py = os.path.join(sut.REPO, 'main.py')
         if case['mode'] == 'file':
             argv, stdin, want_rc = ['/venv/bin/python', main_py, '-l', path], b'q\n', 0
@@ -191,8 +195,10 @@ def eval_cli(case):
 # ---------------------------------------------------------------------------
 # matchers
 
-ALPHABET = ['a', '5', '*', '.', ',', '!', ':', '(', ')', '[', ']', '=', '@', '#', '"', ' ', '-', '~', 'é', '١']
-EXTRA_MATCHERS = ['wl_surface.commit(x=0 ! 5)', '(1e999)', '(inf)', '(nan)', '(-0)', '(5.0)', '("")', '(")', '4a@', 'a@4', '@@', 'A:B:', 'nil', '(nil)',
+ALPHABET = ['a', '5', '*', '.', ',', '!', ':', '(', ')', '[', ']', '=', '@', '#', '"', ' ', '-', '~', 'é', '١', '\\']
+EXTRA_MATCHERS = ['("C:\\Users")', '("\\x")', '("\\u12")', '("\\N{nope}")', '("a\\")', '(="\\n")', '\\', '"\\',
+                  '3\u212a', '4\xdf', 'wl_seat ! 4\xfc', 'A: 12\u03b1',
+                  'wl_surface.commit(x=0 ! 5)', '(1e999)', '(inf)', '(nan)', '(-0)', '(5.0)', '("")', '(")', '4a@', 'a@4', '@@', 'A:B:', 'nil', '(nil)',
                   '.new(x)', '[[a]]', '[a ! b ! c]', '((a))', 'a.b.c', '9' * 400, '(' + '9' * 400 + ')', '\x1b[31ma\x1b[0m', '\x00', 'a\nb',
                   '4' + 'a' * 30, '(=)', '(==)', '[!]', '(!)', '!!', ', ', ' ! ', '*:*.*(*=*)']
 
